@@ -91,16 +91,39 @@ Theorem C12_channel_scaling : forall x, x < 256 ->
   scale (pre x) = spec100 x /\ scale x <= 100 /\ pre x < 256.
 Proof. intros x Hx. split; [exact (scale_pre_spec x Hx)|split; [apply scale_le_100|apply pre_byte]]. Qed.
 
-(* Repeated draws on one handler: while what was drawn fits the cache, a later draw of
-   an image returns exactly the bytes of its first draw, whatever a fresh encoding
-   (under another hash iteration order) would produce. *)
-Theorem C12_repeat : forall limit ds key b i j fresh,
+Definition ex_rows_def : list (list spx) :=
+  [[Opaque (255, 0, 0); Opaque (0, 0, 255)]; [Opaque (255, 0, 0); Opaque (255, 0, 0)];
+   [Opaque (0, 0, 255); Opaque (0, 0, 255)]; [Opaque (255, 0, 0); Opaque (0, 0, 255)];
+   [Opaque (255, 0, 0); Opaque (0, 0, 255)]; [Opaque (255, 0, 0); Opaque (0, 0, 255)];
+   [Opaque (9, 9, 9); Transp (1, 2, 3) 7 (4, 5, 6)]].
+
+(* Repeated draws on one handler (`handler_run`: the LRU cache model with the regenerated
+   IMAGE_CACHE_SIZE, keyed by content hash, fresh encodings by sixel_draw under each draw's
+   own hash-map order): while everything drawn fits the cache, a later draw of an image
+   (same key) returns exactly the bytes of its first draw, whatever order a fresh encoding
+   would use now.  Assumes the key identifies the view's content (64-bit FNV hash). *)
+Theorem C12_repeat : forall (ds : list draw_req) i j key rows oi rows' oj b,
+  total (map cache_req ds) <= sixel_cache_limit ->
+  nth_error ds i = Some (key, rows, oi) -> sixel_draw rows oi = Ok b -> b <> [] ->
+  (forall i' d, (i' < i)%nat -> nth_error ds i' = Some d -> fst (fst d) <> key) ->
+  (i < j)%nat -> nth_error ds j = Some (key, rows', oj) ->
+  nth_error (handler_run ds) i = Some b /\ nth_error (handler_run ds) j = Some b.
+Proof. exact repeat_draw. Qed.
+
+(* the cache alone, for any limit: hits return the first bytes while the draws fit *)
+Theorem C12_cache_repeat : forall limit ds key b i j fresh,
   total ds <= limit ->
   nth_error ds i = Some (key, Some b) ->
   (forall i', (i' < i)%nat -> forall f, nth_error ds i' <> Some (key, f)) ->
   (i < j)%nat -> nth_error ds j = Some (key, fresh) ->
   nth_error (hrun limit ([], 0) ds) i = Some b /\ nth_error (hrun limit ([], 0) ds) j = Some b.
 Proof. exact second_draw_identical. Qed.
+
+Example C12_repeat_nonvacuous :
+  handler_run [(7, ex_rows_def, [[0; 1]]); (9, [], []); (7, ex_rows_def, [[1; 0]])]
+  = match sixel_draw ex_rows_def [[0; 1]] with Ok b => [b; []; b] | _ => [] end /\
+  sixel_draw ex_rows_def [[0; 1]] <> sixel_draw ex_rows_def [[1; 0]].
+Proof. split; [vm_compute; reflexivity|vm_compute; discriminate]. Qed.
 
 Check C12_decode : forall (rows : list (list spx)) (w : nat), src_ok rows w ->
   exists pal q, quantize (sixel_eff rows) sixel_palette_size sixel_dither = Ok (pal, q) /\
